@@ -414,7 +414,7 @@ def snap_tree(u: Universe, root: Any) -> tuple[Any, ...]:
                     tuple((u.nm(r), r.type) for r in x.results),
                     _attr_key(x.attributes),
                     _attr_key(x.properties),
-                    x.location,
+                    getattr(x, "location", None),
                     tuple(u.nm(b) for b in x._successors),
                     tuple(u.nm(r) for r in x.regions),
                 )
@@ -426,7 +426,7 @@ def snap_tree(u: Universe, root: Any) -> tuple[Any, ...]:
                 (
                     "block",
                     u.nm(x),
-                    tuple((u.nm(a), a.type, a.location) for a in x._args),
+                    tuple((u.nm(a), a.type, getattr(a, "location", None)) for a in x._args),
                     tuple(u.nm(o) for o in ops),
                 )
             )
@@ -497,14 +497,14 @@ def canon(
                 tuple(r.type for r in x.results),
                 _attr_key(x.attributes),
                 _attr_key(x.properties),
-                x.location,
+                getattr(x, "location", None),
                 tuple(bref.get(id(b)) or ("ext", u.nm(ext_blocks.get(id(b), b))) for b in x._successors),
                 tuple(emit(r) for r in x.regions),
             )
         if isinstance(x, Block):
             return (
                 "block",
-                tuple((a.type, a.location) for a in x._args),
+                tuple((a.type, getattr(a, "location", None)) for a in x._args),
                 tuple(emit(o) for o in _safe_list(x._first_op, "_next_op")),
             )
         if isinstance(x, Region):
